@@ -744,7 +744,7 @@ where
             Some(remembered) => remembered
                 .get(ParameterId::InitialMaxStreamDataUni)
                 .expect("unreachable: default value will be got if the value unset"),
-            None => match params.get_remote(ParameterId::InitialMaxStreamDataBidiRemote) {
+            None => match params.get_remote(ParameterId::InitialMaxStreamDataUni) {
                 Some(value) => value,
                 None => {
                     ready!(params.poll_ready(cx));
